@@ -154,6 +154,7 @@ def _run_cases(job, specs, descs, mods, res, bump, mode, spans, bytes_mode, tag)
                 res['viol'].append({'sig': '%s ENTRY-MISSING' % tag, 'case': case,
                                     'expected': 'entry point', 'got': str(x)})
                 continue
+            job['_parse'] = parse
             poss = range(len(text) + 1) if positions == 'all' else (0,)
             for pos in poss:
                 # ---- model
@@ -376,3 +377,93 @@ def replay_case(rep, mode=None):
     same = any(jsonable(c) == exp for c in cands)
     print('AGREE' if same else 'DISAGREE')
     return 0 if same else 1
+
+
+# --- C09 by-product oracle: error locations -------------------------------------
+def literal_tokens(specs):
+    toks = []
+
+    def walk(e):
+        if isinstance(e, tuple) and e and isinstance(e[0], str):
+            if e[0] in ('str', 'stri', 're', 'rei', 'byte'):
+                toks.append(e)
+                return
+            for x in e[1:]:
+                walk(x)
+        elif isinstance(e, (list, tuple)):
+            for x in e:
+                walk(x)
+    for sp in specs:
+        for _, d in sp.rules:
+            walk(d[2])
+        for p in sp.ignores:
+            walk(p)
+    return toks
+
+
+def reachable_max(tokens, text, pos):
+    """farthest position reachable from pos by chaining matches of the grammar's literals"""
+    import re as _re
+    seen = {pos}
+    todo = [pos]
+    is_b = isinstance(text, bytes)
+    while todo:
+        p = todo.pop()
+        for t in tokens:
+            k = t[0]
+            q = None
+            if k == 'str':
+                if text.startswith(t[1], p):
+                    q = p + len(t[1])
+            elif k == 'byte':
+                if p < len(text) and text[p] == t[1]:
+                    q = p + 1
+            else:
+                if k == 'stri':
+                    pat, fl = _re.escape(t[1]), _re.I
+                else:
+                    pat, fl = t[1], (_re.I if k == 'rei' else 0)
+                m = model._rx(pat, fl, is_b).match(text, p)
+                if m:
+                    q = m.end()
+            if q is not None and q not in seen:
+                seen.add(q)
+                todo.append(q)
+    return max(seen)
+
+
+def errpos_check(job, text, pos, full, r, out):
+    k = out['kind']
+    if k not in ('ERROR', 'PARTIAL'):
+        return None
+    idx, line, col = out['index'], out['line'], out['column']
+    n = len(text)
+    if not isinstance(idx, int):
+        return 'errpos-not-int'
+    lookbehind = job.get('lookbehind', False)
+    lo = 0 if lookbehind else pos
+    if not (lo <= idx <= n):
+        return 'errpos-out-of-range'
+    toks = job.get('_tokens')
+    if toks is None:
+        toks = job['_tokens'] = literal_tokens(mk_specs(job['mods']))
+    if not lookbehind and idx > reachable_max(toks, text, pos):
+        return 'errpos-beyond-first-unmatchable-character'
+    if k == 'PARTIAL' and idx >= n:
+        return 'errpos-partial-at-end'
+    if idx == n:
+        if line is not None or col is not None:
+            return 'errpos-end-of-input-not-None'
+        return None
+    if line is None or col is None:
+        return 'errpos-None-inside-input'
+    if isinstance(text, bytes):
+        if (line, col) != (1, idx + 1):
+            return 'errpos-bytes-line-column'
+        return None
+    if text[idx] != '\n' and (line, col) != line_col(text, idx):
+        return 'errpos-line-column'
+    return None
+
+
+POST['errpos'] = errpos_check
